@@ -1050,3 +1050,193 @@ Proof.
   induction s as [|c r IH]; [reflexivity|]. cbn [all_ascii]. intros H. apply andb_prop in H. destruct H as [Hc Hr].
   unfold sanitize in *. cbn [gj_walk]. rewrite Hc. destruct (gj_walk r) as [e d]. cbn [snd] in *. now rewrite (IH Hr).
 Qed.
+
+(* ------------------------------------------------------------------------------------------ *)
+(* QueryInstant, vector branch *)
+
+Lemma tokens_of_vector_doc : forall e, tokens_of (vector_doc e) = vector_obj e.
+Proof.
+  intros e. unfold vector_doc, vector_obj. rewrite tokens_of_obj. cbn [map]. rewrite join_cons2, join_one.
+  unfold member_toks. cbn [fst snd]. rewrite tokens_of_labels_doc.
+  cbn [tokens_of map join wObjectStart wObjectField wMore wArrayStart wRaw wString wArrayEnd wObjectEnd app].
+  rewrite <- !app_assoc. reflexivity.
+Qed.
+
+Lemma vector_loop_true : forall es, vector_loop es true = flat_map (fun e => TComma :: vector_obj e) es.
+Proof. induction es as [|e r IH]; [reflexivity|]. cbn [vector_loop flat_map wMore app]. now rewrite IH. Qed.
+
+Lemma vector_loop_join : forall es, vector_loop es false = join (map tokens_of (map vector_doc es)).
+Proof.
+  intros [|e r]; [reflexivity|]. cbn [vector_loop map app]. rewrite join_flat, vector_loop_true, tokens_of_vector_doc.
+  f_equal. induction r as [|x r IH]; [reflexivity|]. cbn [flat_map map app]. now rewrite IH, tokens_of_vector_doc.
+Qed.
+
+Lemma no_fail_batch : forall b, forallb no_fail b = true -> batch_fails b = false.
+Proof.
+  induction b as [|e r IH]; [reflexivity|]. cbn [forallb batch_fails]. intros H. apply andb_prop in H.
+  destruct H as [He Hr]. unfold no_fail in He. destruct (e_err e); try discriminate He; auto.
+Qed.
+Lemma no_fail_batches : forall bs, forallb (forallb no_fail) bs = true -> existsb batch_fails bs = false.
+Proof.
+  induction bs as [|b r IH]; [reflexivity|]. cbn [forallb existsb]. intros H. apply andb_prop in H.
+  destruct H as [Hb Hr]. now rewrite (no_fail_batch b Hb), (IH Hr).
+Qed.
+
+Theorem enc_vector_canonical : forall order bs, forallb (forallb no_fail) bs = true ->
+  enc_vector order bs = tokens_of (doc_vector order bs).
+Proof.
+  intros order bs Hb. unfold enc_vector, doc_vector. rewrite (no_fail_batches bs Hb).
+  rewrite tokens_of_response, vector_loop_join. reflexivity.
+Qed.
+
+Lemma upd_last_in : forall m e x, In x (upd_last m e) -> In x m \/ x = e.
+Proof.
+  induction m as [|y r IH]; intros e x H.
+  - destruct H as [<-|[]]. now right.
+  - cbn [upd_last] in H. destruct (N.eqb (e_fp y) (e_fp e)).
+    + destruct H as [H|H]; [|left; now right]. destruct (Z.ltb (e_ts y) (e_ts e)); [right|left; left]; congruence.
+    + destruct H as [<-|H]; [left; now left|]. destruct (IH e x H) as [H'|H']; [left; now right|now right].
+Qed.
+Lemma fold_upd_last_in : forall es m x, In x (fold_left upd_last es m) -> In x m \/ In x es.
+Proof.
+  induction es as [|e r IH]; intros m x H; [now left|]. cbn [fold_left] in H.
+  destruct (IH _ x H) as [H'|H']; [|right; now right].
+  destruct (upd_last_in m e x H') as [H''|H'']; [now left|right; left; congruence].
+Qed.
+Lemma last_values_in : forall es x, In x (last_values es) -> In x es.
+Proof. intros es x H. destruct (fold_upd_last_in es [] x H) as [[]|H']. exact H'. Qed.
+Lemma find_fp_in : forall f m e, find_fp f m = Some e -> In e m.
+Proof. intros f m e H. unfold find_fp in H. apply find_some in H. tauto. Qed.
+Lemma pick_in : forall order m x, In x (pick order m) -> In x m.
+Proof.
+  induction order as [|f r IH]; intros m x H; [destruct H|]. cbn [pick] in H.
+  destruct (find_fp f m) as [e|] eqn:E; [|apply IH, H].
+  destruct H as [<-|H]; [eapply find_fp_in, E|apply IH, H].
+Qed.
+
+Theorem vector_bytes : forall order bs, forallb (forallb no_fail) bs = true ->
+  forallb (fun e => num_ok (e_tsf e)) (rows_matrix bs) = true ->
+  parse_bytes (render (enc_vector order bs)) = Some (doc_vector order bs).
+Proof.
+  intros order bs Hb Hn. rewrite (enc_vector_canonical order bs Hb). apply parse_bytes_render.
+  unfold doc_vector. rewrite nums_ok_response, forallb_map'. apply forallb_forall. intros e He.
+  cbn [vector_doc nums_ok forallb snd]. rewrite nums_ok_labels_doc. cbn [andb]. rewrite !andb_true_r.
+  rewrite forallb_forall in Hn. apply Hn. apply last_values_in. eapply pick_in, He.
+Qed.
+
+(* the map holds every fingerprint of the rows exactly once, with its latest sample (first one on ties) *)
+Lemma upd_last_fps : forall m e,
+  map e_fp (upd_last m e) = if existsb (N.eqb (e_fp e)) (map e_fp m) then map e_fp m else map e_fp m ++ [e_fp e].
+Proof.
+  induction m as [|x r IH]; intros e; [reflexivity|]. cbn [upd_last map existsb].
+  rewrite (N.eqb_sym (e_fp e) (e_fp x)). destruct (N.eqb_spec (e_fp x) (e_fp e)) as [E|E].
+  - cbn [orb map]. f_equal. destruct (Z.ltb (e_ts x) (e_ts e)); congruence.
+  - cbn [orb map]. rewrite IH. destruct (existsb (N.eqb (e_fp e)) (map e_fp r)); reflexivity.
+Qed.
+Lemma existsb_eqb_in : forall f l, existsb (N.eqb f) l = true <-> In f l.
+Proof.
+  intros f l. rewrite existsb_exists. split.
+  - intros [x [Hx E]]. apply N.eqb_eq in E. now subst.
+  - intros H. exists f. split; [exact H|apply N.eqb_refl].
+Qed.
+Lemma nodup_snoc : forall (l : list N) f, NoDup l -> ~ In f l -> NoDup (l ++ [f]).
+Proof.
+  induction l as [|y l IH]; intros f H Hn; cbn [app].
+  - constructor; [intros []|constructor].
+  - inversion H as [|y' l' Hy Hl]; subst. constructor.
+    + intros Hi. apply in_app_or in Hi. destruct Hi as [Hi|[Hi|[]]]; [tauto|]. apply Hn. now left.
+    + apply IH; [exact Hl|]. intros Hi. apply Hn. now right.
+Qed.
+Lemma upd_last_nodup : forall m e, NoDup (map e_fp m) -> NoDup (map e_fp (upd_last m e)).
+Proof.
+  intros m e H. rewrite upd_last_fps. destruct (existsb (N.eqb (e_fp e)) (map e_fp m)) eqn:E; [exact H|].
+  apply nodup_snoc; [exact H|]. intros Hi. apply existsb_eqb_in in Hi. congruence.
+Qed.
+Lemma fold_upd_last_nodup : forall es m, NoDup (map e_fp m) -> NoDup (map e_fp (fold_left upd_last es m)).
+Proof. induction es as [|e r IH]; intros m H; [exact H|]. cbn [fold_left]. apply IH, upd_last_nodup, H. Qed.
+Theorem last_values_nodup : forall es, NoDup (map e_fp (last_values es)).
+Proof. intros es. apply fold_upd_last_nodup. constructor. Qed.
+
+Lemma upd_last_keeps : forall m e f, In f (map e_fp m) \/ f = e_fp e -> In f (map e_fp (upd_last m e)).
+Proof.
+  intros m e f H. rewrite upd_last_fps. destruct (existsb (N.eqb (e_fp e)) (map e_fp m)) eqn:E.
+  - destruct H as [H| ->]; [exact H|]. now apply existsb_eqb_in.
+  - apply in_or_app. destruct H as [H| ->]; [now left|right; now left].
+Qed.
+Lemma fold_upd_last_keeps : forall es m f,
+  In f (map e_fp m) \/ In f (map e_fp es) -> In f (map e_fp (fold_left upd_last es m)).
+Proof.
+  induction es as [|e r IH]; intros m f H; [destruct H as [H|[]]; exact H|]. cbn [fold_left]. apply IH.
+  destruct H as [H|[H|H]]; [left; apply upd_last_keeps; now left|left; apply upd_last_keeps; now right|now right].
+Qed.
+Theorem last_values_complete : forall es f, In f (map e_fp es) -> In f (map e_fp (last_values es)).
+Proof. intros es f H. apply fold_upd_last_keeps. now right. Qed.
+
+(* latest: no row of the same fingerprint is newer than the one kept *)
+Lemma upd_last_has_new : forall m e, exists x, In x (upd_last m e) /\ e_fp x = e_fp e /\ (e_ts e <= e_ts x)%Z.
+Proof.
+  induction m as [|a r IH]; intros e.
+  - exists e. split; [now left|split; [reflexivity|lia]].
+  - cbn [upd_last]. destruct (N.eqb_spec (e_fp a) (e_fp e)) as [E|E].
+    + destruct (Z.ltb_spec (e_ts a) (e_ts e)) as [L|L].
+      * exists e. split; [now left|split; [reflexivity|lia]].
+      * exists a. split; [now left|split; [exact E|lia]].
+    + destruct (IH e) as [x [Hx Hp]]. exists x. split; [now right|exact Hp].
+Qed.
+Lemma upd_last_has_old : forall m e a, In a m ->
+  exists x, In x (upd_last m e) /\ e_fp x = e_fp a /\ (e_ts a <= e_ts x)%Z.
+Proof.
+  induction m as [|b r IH]; intros e a Ha; [destruct Ha|].
+  cbn [upd_last]. destruct (N.eqb_spec (e_fp b) (e_fp e)) as [E|E].
+  - destruct Ha as [<-|Ha].
+    + destruct (Z.ltb_spec (e_ts b) (e_ts e)) as [L|L].
+      * exists e. split; [now left|split; [now symmetry|lia]].
+      * exists b. split; [now left|split; [reflexivity|lia]].
+    + exists a. split; [now right|split; [reflexivity|lia]].
+  - destruct Ha as [<-|Ha].
+    + exists b. split; [now left|split; [reflexivity|lia]].
+    + destruct (IH e a Ha) as [x [Hx Hp]]. exists x. split; [now right|exact Hp].
+Qed.
+
+Definition covers (m seen : list entry) : Prop :=
+  forall y, In y seen -> exists x, In x m /\ e_fp x = e_fp y /\ (e_ts y <= e_ts x)%Z.
+Lemma fold_upd_last_covers : forall es m seen, covers m seen -> covers (fold_left upd_last es m) (seen ++ es).
+Proof.
+  induction es as [|e r IH]; intros m seen H; [now rewrite app_nil_r|].
+  cbn [fold_left]. replace (seen ++ e :: r) with ((seen ++ [e]) ++ r) by now rewrite <- app_assoc.
+  apply IH. intros y Hy. apply in_app_or in Hy. destruct Hy as [Hy|[<-|[]]].
+  - destruct (H y Hy) as [a [Ha [Hf Ht]]]. destruct (upd_last_has_old m e a Ha) as [x [Hx [Hf' Ht']]].
+    exists x. split; [exact Hx|split; [congruence|lia]].
+  - apply upd_last_has_new.
+Qed.
+Lemma nodup_map_inj : forall (l : list entry) a b, NoDup (map e_fp l) -> In a l -> In b l -> e_fp a = e_fp b -> a = b.
+Proof.
+  induction l as [|x l IH]; intros a b H Ha Hb E; [destruct Ha|].
+  cbn [map] in H. inversion H as [|x' l' Hx Hl]; subst.
+  destruct Ha as [<-|Ha], Hb as [<-|Hb]; try reflexivity.
+  - exfalso. apply Hx. rewrite E. now apply in_map.
+  - exfalso. apply Hx. rewrite <- E. now apply in_map.
+  - now apply IH.
+Qed.
+Theorem last_values_latest : forall es x y, In x (last_values es) -> In y es -> e_fp y = e_fp x ->
+  (e_ts y <= e_ts x)%Z.
+Proof.
+  intros es x y Hx Hy E.
+  assert (C : covers (last_values es) ([] ++ es)) by (apply fold_upd_last_covers; intros z []).
+  destruct (C y Hy) as [x' [Hx' [Hf Ht]]].
+  assert (x' = x) by (apply (nodup_map_inj (last_values es)); [apply last_values_nodup|exact Hx'|exact Hx|congruence]).
+  now subst.
+Qed.
+
+(* with [order] a permutation of the map's fingerprints, the result array holds every fingerprint once *)
+Lemma find_fp_fp : forall f m e, find_fp f m = Some e -> e_fp e = f.
+Proof. intros f m e H. unfold find_fp in H. apply find_some in H. destruct H as [_ H]. now apply N.eqb_eq in H. Qed.
+Lemma pick_fps : forall order m, (forall f, In f order -> In f (map e_fp m)) -> map e_fp (pick order m) = order.
+Proof.
+  induction order as [|f r IH]; intros m H; [reflexivity|]. cbn [pick].
+  destruct (find_fp f m) as [e|] eqn:E.
+  - cbn [map]. rewrite (find_fp_fp f m e E), IH; [reflexivity|]. intros g Hg. apply H. now right.
+  - exfalso. assert (Hi : In f (map e_fp m)) by (apply H; now left).
+    apply in_map_iff in Hi. destruct Hi as [x [Hx Hin]].
+    unfold find_fp in E. apply (find_none _ _ E x) in Hin. rewrite Hx, N.eqb_refl in Hin. discriminate.
+Qed.
